@@ -257,13 +257,23 @@ func (e *Engine) sigType(tc *Contract, pkg *types.Package) types.Type {
 	if t, ok := e.sigCache[tc]; ok {
 		return t
 	}
-	tv, err := types.Eval(e.fset, pkg, token.NoPos, tc.Sig)
-	if err != nil {
-		e.sigCache[tc] = nil
-		return nil
+	// imports are file-scoped: evaluate the type expression inside each file of the package
+	// until it resolves
+	positions := []token.Pos{token.NoPos}
+	for name, f := range e.astFiles {
+		if f.Name != nil && f.Name.Name == pkg.Name() && strings.HasPrefix(name, e.repo) && len(f.Decls) > 0 {
+			positions = append(positions, f.Decls[len(f.Decls)-1].Pos())
+		}
 	}
-	e.sigCache[tc] = tv.Type
-	return tv.Type
+	for _, pos := range positions {
+		tv, err := types.Eval(e.fset, pkg, pos, tc.Sig)
+		if err == nil {
+			e.sigCache[tc] = tv.Type
+			return tv.Type
+		}
+	}
+	e.sigCache[tc] = nil
+	return nil
 }
 
 // typeContractOfFn: the function-type contract a function must satisfy because its signature
@@ -774,6 +784,14 @@ func (e *Engine) instrEffects(sc *FnCtx, fn *ssa.Function, in ssa.Instruction, e
 
 func (e *Engine) callEffects(sc *FnCtx, fn *ssa.Function, cc *ssa.CallCommon, eff *Effects, depth int, fr *Frame) {
 	if cc.IsInvoke() {
+		// receiver built by MakeInterface in the same function (possibly passed as a parameter
+		// of an inlined frame): known dynamic type
+		if t := dynTypeOf(cc.Value, fr); t != nil {
+			if m := e.prog.LookupMethod(t, cc.Method.Pkg(), cc.Method.Name()); m != nil && m.Blocks != nil {
+				e.staticCalleeEffects(sc, m, eff, depth)
+				return
+			}
+		}
 		pk := ""
 		if cc.Method.Pkg() != nil {
 			pk = cc.Method.Pkg().Path()
@@ -1083,4 +1101,30 @@ func storedInLoopOrTwice(fn *ssa.Function, al *ssa.Alloc) bool {
 		}
 	}
 	return n > 1
+}
+
+// dynTypeOf: the dynamic type of an interface value when it is statically evident.
+func dynTypeOf(v ssa.Value, fr *Frame) types.Type {
+	switch x := v.(type) {
+	case *ssa.MakeInterface:
+		return x.X.Type()
+	case *ssa.UnOp:
+		if al, ok := x.X.(*ssa.Alloc); ok && fr != nil {
+			// parameter cell of an inlined frame
+			for _, p := range fr.fn.Params {
+				if p.Name() == al.Comment && !storedInLoopOrTwice(fr.fn, al) {
+					if av, ok := fr.vals[p]; ok && av.Dyn != nil {
+						return av.Dyn.T
+					}
+				}
+			}
+		}
+	case *ssa.Parameter:
+		if fr != nil {
+			if av, ok := fr.vals[x]; ok && av.Dyn != nil {
+				return av.Dyn.T
+			}
+		}
+	}
+	return nil
 }
